@@ -4,11 +4,13 @@ package server_test
 // (minimal inputs, no generators). A witness fails while its defect is present.
 
 import (
+	"bytes"
 	"context"
 	"fmt"
 	"testing"
 
 	"github.com/pilosa/pilosa"
+	"github.com/pilosa/pilosa/roaring"
 	"github.com/pilosa/pilosa/test"
 )
 
@@ -143,5 +145,32 @@ func TestVerifWitness_DS4(t *testing.T) {
 	}
 	if got := vgsQuery(t, cmd, "i", "Count(Row(f=1))")[0]; fmt.Sprint(got) != "1" {
 		t.Fatalf("Count(Row(f=1)) after SetBit(99) on an earlier query result = %v, want 1", got)
+	}
+}
+
+// DS5: ImportRoaringBits(clear) kept a container it had emptied (Remove drops
+// it), so after Set(5, f=1) and a roaring clear-import of that bit Rows(f)
+// still listed row 1 until the next restart.
+func TestVerifWitness_DS5(t *testing.T) {
+	cmd := test.MustRunCommand()
+	defer cmd.Close()
+	cmd.MustCreateIndex(t, "i", pilosa.IndexOptions{})
+	cmd.MustCreateField(t, "i", "f", pilosa.OptFieldTypeSet("ranked", 100))
+	vgsQuery(t, cmd, "i", "Set(5, f=1)")
+	var buf bytes.Buffer
+	if _, err := roaring.NewBitmap(1*pilosa.ShardWidth + 5).WriteTo(&buf); err != nil {
+		t.Fatal(err)
+	}
+	req := &pilosa.ImportRoaringRequest{Clear: true, Views: map[string][]byte{"": buf.Bytes()}}
+	if err := cmd.API.ImportRoaring(context.Background(), "i", "f", 0, false, req); err != nil {
+		t.Fatal(err)
+	}
+	before := vgsQuery(t, cmd, "i", "Rows(f)")[0].(pilosa.RowIdentifiers)
+	if err := cmd.Reopen(); err != nil {
+		t.Fatal(err)
+	}
+	after := vgsQuery(t, cmd, "i", "Rows(f)")[0].(pilosa.RowIdentifiers)
+	if len(before.Rows) != 0 || len(after.Rows) != 0 {
+		t.Fatalf("Rows(f) after the only bit of row 1 was cleared by a roaring import: before restart %v, after restart %v, want none", before.Rows, after.Rows)
 	}
 }
